@@ -22,6 +22,8 @@ the real `MapToMolecule.run_molecule` (its result is dumped: the INPUT of the li
     tokens (repeats included) x resids {1,2,3}             -> correspondence stream `checkRelativeOrder` + oracle
   * `parseEdgesNew` vs the repository's `_parse_edges_new` ([ edges ] lines with edge attributes), exhaustive
     over a grid of lines x block/link/modification x edges/non-edges -> correspondence stream `parseEdgesNew`
+  * the same force field with every link definition respelled (sections in another order, atom attributes inline)
+    through the real parsers and pipeline -> metamorphic oracle `link-definition-depends-on-spelling`
   * every link shape on <= 3 residues x every residue graph on <= 4 nodes through the real pipeline (what VF2
     returns vs the model's and the specification's enumeration) -> stream `vf2-exhaustive` (applyLinks + oracle)
   * `splitDangling` / `tagVersions` vs the real parser     -> correspondence stream `dangling-split`
@@ -448,6 +450,84 @@ def run_dangling(ctx, count):
     run_dangling_items(ctx, [gen_dangling_item(ctx) for _ in range(count)])
 
 
+# ------------------------------------------------------------------------------------------ spelling of a link definition
+
+def canon_links(force_field):
+    out = []
+    for link in force_field.links:
+        d = G.dump_link(link, allow_explicit=True)
+        d["atoms"] = sorted(d["atoms"], key=lambda a: a["key"])
+        for atom in d["atoms"]:
+            atom["attrs"], atom["replace"] = sorted(atom["attrs"], key=json.dumps), sorted(atom["replace"])
+        d["edges"] = sorted(sorted(e[:2]) + [e[2]] for e in d["edges"])
+        out.append(d)
+    return out
+
+
+def respell(rng, case):
+    """the same force field, every link definition spelled differently: the sections after `[ atoms ]` in another
+    order (`[ edges ]` / `[ non-edges ]` / `[ patterns ]` before or after the interaction sections) and, for most
+    links, the atom attributes written behind the first mention of the atom instead of in `[ atoms ]`"""
+    variant = copy.deepcopy(case)
+    for link in variant["links"]:
+        order = ["ixns", "edges", "nonedges", "patterns"]
+        rng.shuffle(order)
+        link["section_order"] = order
+        link["inline_atoms"] = rng.random() < 0.7
+    return variant
+
+
+def run_link_spelling(ctx, count):
+    """A link definition means the same however its sections are ordered and wherever the atom attributes are
+    written: the repository's parsers must produce the same links (atoms with attributes, interactions, labelled
+    edges, non-edges, patterns) and the real MapToMolecule + ApplyLinks the same molecule."""
+    from polyply.src.map_to_molecule import MapToMolecule
+    from polyply.src.apply_links import ApplyLinks
+    rng = ctx.rng
+    pairs = []
+    while len(pairs) < count:
+        case = G.gen_case(rng, max_res=ctx.budget(5, 8))
+        if case["links"]:
+            pairs.append((case, respell(rng, case)))
+    run_link_spelling_pairs(ctx, pairs)
+
+
+def run_link_spelling_pairs(ctx, pairs):
+    from polyply.src.map_to_molecule import MapToMolecule
+    from polyply.src.apply_links import ApplyLinks
+    for case, variant in pairs:
+        replay = dict(stream="link-spelling", case=case, variant=variant)
+        results = []
+        try:
+            for item in (case, variant):
+                with tempfile.TemporaryDirectory() as tmp:
+                    force_field, meta = G.build(item, tmp)
+                links = canon_links(force_field)
+                MapToMolecule(force_field).run_molecule(meta)
+                ApplyLinks().run_molecule(meta)
+                results.append((links, G.dump_output(meta)))
+        except G.Unsupported as err:
+            ctx.tally(unsupported=str(err)[:40])
+            continue
+        except Exception as err:  # pylint: disable=broad-except
+            ctx.oracle_fail("pipeline-raises", "respelled link definitions (section order %s): parser / pipeline raised %s: %s"
+                            % ([l["section_order"] for l in variant["links"]], type(err).__name__, str(err)[:200]), replay)
+            continue
+        (links_a, out_a), (links_b, out_b) = results
+        if links_a != links_b:
+            idx = next(i for i, (x, y) in enumerate(zip(links_a, links_b)) if x != y) if len(links_a) == len(links_b) else -1
+            ctx.oracle_fail("link-definition-depends-on-spelling", "the same link definition read from two spellings (sections %s, inline "
+                            "atoms %s) gives different links: %s vs %s" % (variant["links"][idx]["section_order"], variant["links"][idx]["inline_atoms"],
+                                                                            json.dumps(links_a[idx])[:500], json.dumps(links_b[idx])[:500]), replay)
+        elif out_a != out_b:
+            ctx.oracle_fail("link-definition-depends-on-spelling", "the same force field in two spellings gives different molecules: only "
+                            "canonical %s only respelled %s" % ([x for x in out_a["ixns"] if x not in out_b["ixns"]][:3],
+                                                               [x for x in out_b["ixns"] if x not in out_a["ixns"]][:3]), replay)
+        labelled = any(e[2] is not None for link in case["links"] for e in link["edges"])
+        ctx.case(("link-spelling", json.dumps(replay, sort_keys=True)), stream="link-spelling", labelled_edges=labelled)
+        ctx.traces += 1
+
+
 # ------------------------------------------------------------------------------------------ explicit links
 
 XSECTIONS = {"bonds": 2, "constraints": 2, "angles": 3, "dihedrals": 4}
@@ -869,6 +949,7 @@ def run(ctx):
     ctx.tally(vf2_exhaustive_graphs=len(vf2), vf2_exhaustive_link_shapes=len(vf2[0]["links"]))
     run_main(ctx, vf2, known, stream="vf2-exhaustive")
     run_dangling(ctx, ctx.budget(60, 600))
+    run_link_spelling(ctx, ctx.budget(120, 1500))
     run_explicit_direct(ctx)
     run_explicit_pipeline(ctx, ctx.budget(60, 800))
 
@@ -888,6 +969,8 @@ def replay(ctx, data):
             run_parse_edges(ctx)
         elif item.get("stream") == "dangling":
             run_dangling_items(ctx, [item])
+        elif item.get("stream") == "link-spelling":
+            run_link_spelling_pairs(ctx, [(item["case"], item["variant"])])
         elif item.get("stream") == "explicit":
             case = small_molecule() if item["case"] == "small" else item["case"]
             run_explicit_items(ctx, [item], {json.dumps(item["case"], sort_keys=True): run_real(case)[2].molecule})
